@@ -109,6 +109,11 @@ def groups(tier):
             out.append(("G7", dict(c, frame_rate_numer=fr.numerator, frame_rate_denom=fr.denominator)))
         for i, r in sorted(PRESET_PIXEL_ASPECT_RATIOS.items()):
             out.append(("G7", dict(c, pixel_aspect_ratio_numer=r.numerator, pixel_aspect_ratio_denom=r.denominator)))
+        for i, fr in sorted(PRESET_FRAME_RATES.items()):
+            out.append(("G7", dict(c, frame_rate_numer=2 * fr.numerator, frame_rate_denom=2 * fr.denominator)))
+        for i, r in sorted(PRESET_PIXEL_ASPECT_RATIOS.items()):
+            out.append(("G7", dict(c, pixel_aspect_ratio_numer=2 * r.numerator, pixel_aspect_ratio_denom=2 * r.denominator)))
+        out.append(("G7", dict(c, frame_rate_numer=3, frame_rate_denom=3, pixel_aspect_ratio_numer=5, pixel_aspect_ratio_denom=5)))
         for i, sr in sorted(PRESET_SIGNAL_RANGES.items()):
             out.append(("G7", dict(c, luma_offset=sr.luma_offset, luma_excursion=sr.luma_excursion, color_diff_offset=sr.color_diff_offset, color_diff_excursion=sr.color_diff_excursion)))
     # G8 slice lengths around the 8-bit length-field boundaries: one slice, untransformed,
@@ -123,6 +128,12 @@ def groups(tier):
                     if mode == "hq":
                         c["picture_bytes"] = 3 * 20 * w + 8
                     out.append(("G8", c))
+    # G9 no custom quantisation matrix given, for every wavelet pair and depth pair: where the standard
+    # has no default matrix the encoder must refuse; it must never emit a stream the validator rejects
+    for mode in ("hq", "ld"):
+        for wi, wiho in ALL49:
+            for dd, ddho in DEPTHS7 + [(0, 3), (3, 0), (1, 2)]:
+                out.append(("G9", dict(mode=mode, wavelet_index=wi, wavelet_index_ho=wiho, dwt_depth=dd, dwt_depth_ho=ddho, quantization_matrix=None)))
     return out
 
 
